@@ -1140,14 +1140,8 @@ class PCanon(Canon):
         t = Canon.r(self, n, depth, env)
         # `match (a, b) { (Some(aa), Some(bb)) => ..` : project the tuple literal
         t = t.replace("($P0, $P1).0", "$P0").replace("($P0, $P1).1", "$P1")
-        # `let (x, y) = (e1, e2);` : project any flat pair literal
-        import re as _re
-        for _ in range(4):
-            t2 = _re.sub(r"\(([^(),]+), ([^(),]+)\)\.([01])", lambda m_: m_.group(1) if m_.group(3) == "0" else m_.group(2), t)
-            if t2 == t:
-                break
-            t = t2
-        return t
+        # `let (x, y) = (e1, e2);` / `match ((a, b), (c, d)) { ((p, q), (r, s)) => ..`: project tuple literals
+        return project_tuples(t)
 
 
 def _anc_index(h):
@@ -1197,3 +1191,43 @@ def neighbour_tests(h):
             dedups = [x for x, _ in walk(h["body"]) if x.get("k") == "mcall" and x["name"] == "sorted"]
             out.append((n, recv, any(0 <= top_ix(x) <= top_ix(n) for x in sorts)))
     return out
+
+
+def project_tuples(t):
+    """rewrite `(e0, e1, ..).k` (a projection of a tuple literal) to `ek`, innermost first, until nothing changes"""
+    for _ in range(8):
+        changed = False
+        i = 0
+        while i < len(t):
+            if t[i] == "(":
+                # find the matching close
+                depth = 0
+                j = i
+                parts = []
+                start = i + 1
+                while j < len(t):
+                    ch = t[j]
+                    if ch in "([{<" and not (ch == "<" and (j == 0 or not (t[j - 1].isalnum() or t[j - 1] in "_:"))):
+                        depth += 1
+                    elif ch in ")]}" or (ch == ">" and depth > 1 and t[j - 1] not in "=-"):
+                        depth -= 1
+                        if depth == 0:
+                            break
+                    elif ch == "," and depth == 1:
+                        parts.append(t[start:j])
+                        start = j + 1
+                    j += 1
+                if j < len(t) and depth == 0 and parts:
+                    parts.append(t[start:j])
+                    mproj = None
+                    if t[j + 1:j + 2] == "." and t[j + 2:j + 3].isdigit() and not t[j + 3:j + 4].isdigit() and (i == 0 or not (t[i - 1].isalnum() or t[i - 1] in "_!>")):
+                        mproj = int(t[j + 2])
+                    if mproj is not None and mproj < len(parts):
+                        rep_ = parts[mproj].strip()
+                        t = t[:i] + rep_ + t[j + 3:]
+                        changed = True
+                        continue
+            i += 1
+        if not changed:
+            break
+    return t
